@@ -394,6 +394,10 @@ func ParseContractFile(path, pkgPath string) (*ContractFile, error) {
 				if strings.HasPrefix(it, "any ") {
 					// any T.f : field f of every object of struct type T
 					tf := strings.TrimSpace(it[4:])
+					if strings.HasPrefix(tf, "[]") {
+						cur.Modifies = append(cur.Modifies, ModItem{Src: it, AnyType: tf})
+						continue
+					}
 					dot := strings.LastIndex(tf, ".")
 					if dot <= 0 {
 						return nil, fail(l, "modifies any T.field")
